@@ -13,7 +13,7 @@ if [ $# -ge 4 ]; then
   MIRIFLAGS="-Zmiri-seed=$4 -Zmiri-preemption-rate=0.2 -Zmiri-disable-isolation" cargo +nightly miri run --offline -q -- "$3"
   exit $?
 fi
-SC="protocol recv_cont_run run_run restart_parked_tokens restart_in_repetition mutate_while_parked"
+SC="protocol recv_cont_run run_run restart_parked_tokens restart_in_repetition mutate_while_parked early_cont_then_run"
 t0=$(date +%s)
 fails="[]"; runs=0
 for s in $SC; do
@@ -33,7 +33,7 @@ python3 - "$OUT" "$SEEDS" "$runs" "$fails" "$((t1-t0))" <<'PY'
 import json,sys
 out,seeds,runs,fails,wall=sys.argv[1:]
 json.dump({"engine":"miri (cargo +nightly miri run), real std::thread/park/mpsc/Mutex, guard OFF",
- "scenarios":["protocol","recv_cont_run","run_run","restart_parked_tokens","restart_in_repetition","mutate_while_parked"],
+ "scenarios":["protocol","recv_cont_run","run_run","restart_parked_tokens","restart_in_repetition","mutate_while_parked","early_cont_then_run"],
  "seeds_per_scenario":int(seeds),"executions_ok":int(runs),"failures":json.loads(fails),"wall_s":int(wall),
  "flags":"-Zmiri-many-seeds -Zmiri-preemption-rate=0.2 -Zmiri-disable-isolation"}, open(out,"w"), indent=1)
 PY
